@@ -148,6 +148,12 @@ def s_inf(draw):
     top = max(d for _, d in bars)
     span = max(1e-6, top - min(b for b, _ in bars))
     val = top + draw(st.sampled_from([1.0, 0.5, 2.0, 10.0])) * span
+    if draw(st.integers(0, 3)) == 0:
+        # a barcode on negative filtration values capped at exactly 0 (int or float): a legitimate "supplied value"
+        shift = top + draw(st.sampled_from([1.0, 0.5, 3.0])) * span
+        bars = [[b - shift, d - shift] for b, d in bars]
+        births = [b - shift for b in births]
+        val = draw(st.sampled_from([0.0, 0]))
     return {"bars": bars, "inf_births": births, "inf_pos": pos, "val_inf": val,
             "normalize": draw(st.booleans()), "mode": draw(st.sampled_from(["drop", "default", "replace", "missing_val"]))}
 
